@@ -317,12 +317,82 @@ impl<'c> Shapes<'c> {
     }
 }
 
+/// records the choices made through it, so that the same shape can be built a second time
+struct Recorder<'c> {
+    inner: &'c mut dyn Choose,
+    log: Vec<usize>,
+}
+
+impl<'c> Choose for Recorder<'c> {
+    fn pick(&mut self, n: usize) -> usize {
+        let v = self.inner.pick(n);
+        self.log.push(v);
+        v
+    }
+}
+
+struct Replayer {
+    log: Vec<usize>,
+    pos: usize,
+}
+
+impl Choose for Replayer {
+    fn pick(&mut self, n: usize) -> usize {
+        let v = self.log.get(self.pos).copied().unwrap_or(0).min(n.max(1) - 1);
+        self.pos += 1;
+        v
+    }
+}
+
+/// marker numbers of the decoy copy of a shape (a multiple of 6 keeps the copy's structure,
+/// which depends on k mod 2 and k mod 3, identical to the original's)
+const DECOY: i32 = 6000;
+
 fn build(c: &mut dyn Choose, depth: usize, multi: bool) -> Prog {
-    let mut s = Shapes { c, k: 0, multi, uniq: 0 };
-    let ty = [Ty::Int, Ty::Bool, Ty::Null, Ty::Arr, Ty::Obj][s.c.pick(5)];
-    let e = s.shape(ty, depth);
+    // where the shape is evaluated: the frame kind decides how temporaries, labels and slots of
+    // the shape are compiled, so the same shape is tried in each
+    let context = c.pick(5);
+    let mut rec = Recorder { inner: c, log: vec![] };
+    let (e, ty) = {
+        let mut s = Shapes { c: &mut rec, k: 0, multi, uniq: 0 };
+        let ty = [Ty::Int, Ty::Bool, Ty::Null, Ty::Arr, Ty::Obj][s.c.pick(5)];
+        (s.shape(ty, depth), ty)
+    };
+    let _ = ty;
     let mut p = prelude();
-    p.push(print("=~\\n", vec![e]));
+    match context {
+        0 => p.push(print("=~\\n", vec![e])),
+        // in a function frame
+        1 => {
+            p.push(E::Fun("host".into(), vec!["hp".into()], bx(e)));
+            p.push(print("=~\\n", vec![call("host", vec![E::Int(0)])]));
+        }
+        // in a block of the entry frame, after another block-local
+        2 => p.push(E::Block(vec![let_("pad", E::Int(0)), print("=~\\n", vec![e])])),
+        // in a method, between two other objects whose same-named methods hold a copy of the
+        // shape with other marker numbers: control that strays into a neighbour shows in the trace
+        _ => {
+            let decoy = |k0: i32, log: &Vec<usize>| {
+                let mut rp = Replayer { log: log.clone(), pos: 0 };
+                let mut s = Shapes { c: &mut rp, k: k0, multi, uniq: 0 };
+                let ty = [Ty::Int, Ty::Bool, Ty::Null, Ty::Arr, Ty::Obj][s.c.pick(5)];
+                s.shape(ty, depth)
+            };
+            let before = decoy(DECOY, &rec.log);
+            let after = decoy(2 * DECOY, &rec.log);
+            let obj = |body: E| E::Object(None, vec![Member::Field("tag".into(), E::Int(1)), Member::Method("run".into(), vec!["hp".into()], body)]);
+            if context == 3 {
+                p.push(let_("twin0", obj(before)));
+                p.push(let_("host", obj(e)));
+                p.push(let_("twin1", obj(after)));
+            } else {
+                // the host is an inline receiver, its neighbours are created inside a function
+                p.push(E::Fun("twins".into(), vec![], bx(E::Block(vec![let_("t0", obj(before)), let_("t1", obj(after)), E::Null]))));
+                p.push(let_("host", obj(e)));
+            }
+            p.push(print("=~\\n", vec![mcall(var("host"), "run", vec![E::Int(0)])]));
+        }
+    }
     p.push(print("x=~ g=~\\n", vec![var("x"), var("g")]));
     p
 }
